@@ -16,6 +16,16 @@ CHECKS = {
         note='Trusted: Lean kernel; propext/Classical.choice/Quot.sound; hand-written model tied by differential correspondence; '
              'CPython exact int/float comparison and int(str)/float(str) are externals (parser is a theorem parameter).',
         technique='Lean 4 proof over hand model + differential correspondence (value-level)', design='5/C10'),
+    'C15': dict(
+        text='Lean 4 theorems: the calendar model is a bijection between valid civil dates and ordinals (both round trips, closed-form '
+             'ordinal = sum of year lengths), DATE = 1 Jan + (m-1) months + (d-1) days for every integer month/day inside the '
+             'representable years, YEAR/MONTH/DAY invert DATE, EDATE/EOMONTH month arithmetic with clamping, DATEDIF M is the greatest '
+             'number of complete months and Y/YM decompose it, NETWORKDAYS loop = count of Mon-Fri non-holidays, negated when reversed. '
+             'Tie B: helpers and end-to-end formulas against the model and against independent datetime/calendar oracles; the calendar '
+             'externals are validated exhaustively (thorough) over all 3 652 059 ordinals.',
+        note='Trusted: Lean kernel; standard axioms; datetime/calendar/dateutil are externals modelled in Lean and validated by correspondence; '
+             'TODAY depends on the system clock and is measured against date.today(), not proved (partial for that clause).',
+        technique='Lean 4 proof over hand model + differential correspondence + independent calendar oracle', design='5/C15'),
 }
 
 NOT_YET = 'check not built yet (work in progress; will be claimed when its Lean model, theorems and correspondence are green)'
